@@ -56,6 +56,9 @@ def h_rbf(env, kind, n=1, nctrl=2, ntot=3):
     elif kind == "const*subset_list":
         idx = [2, 0]
         kern = K.DiffConstantKernel(env.par("c", "pos", hi="8")) * K.SubsetRBF([2, 0], length_scale=_arr(env, [ls[2], ls[0]]))
+    elif kind == "const*subset_perm":        # an index list that reorders ALL features: same width as the input, different columns
+        idx = [2, 0, 1]
+        kern = K.DiffConstantKernel(env.par("c", "pos", hi="8")) * K.SubsetRBF([2, 0, 1], length_scale=_arr(env, [ls[2], ls[0], ls[1]]))
     else:
         raise ValueError(kind)
     nsub = len(idx)
@@ -129,6 +132,14 @@ def h_spin(env, n=1, nctrl=2):
         for s in range(2):
             for j in range(nf):
                 env.deriv("gradient_s%d_%d_%d" % (s, g, j), f, ("X1", (s, g, j)), dres[s, g, j] - d0[s, g, j])
+    # default buffers: the evaluator allocates res / dres itself; they must have one entry per sample (the C routine writes n of them)
+    ok, out = env.attempt("call_with_default_buffers_returns", lambda: ev(X1.copy()))
+    if ok:
+        r2, d2 = out
+        env.check("default_value_buffer_has_one_entry_per_sample", np.shape(r2) == (n,) and np.shape(d2) == (2, n, nf), "%s %s for %d samples" % (np.shape(r2), np.shape(d2), n))
+        if np.shape(r2) == (n,):
+            for g in range(n):
+                env.equal("default_buffers_value_%d" % g, r2[g], res[g] - r0[g])
 
 
 def h_spin_v2_raw(env, n=1, nctrl=2):
@@ -292,7 +303,7 @@ def h_k0_for_mapping(env, name):
 
 def tasks(tier):
     out = []
-    kinds = ["full", "const*full", "const*subset_slice", "const*subset_slice_open", "const*subset_slice_step", "const*subset_list"]
+    kinds = ["full", "const*full", "const*subset_slice", "const*subset_slice_open", "const*subset_slice_step", "const*subset_list", "const*subset_perm"]
     for kind in kinds:
         out.append(Task("rbf/%s" % kind, h_rbf, dict(kind=kind), mods="kernels", max_paths=16))
     if tier == "thorough":
@@ -300,6 +311,7 @@ def tasks(tier):
         out.append(Task("spin/n2", h_spin, dict(n=2), mods="kernels"))
     out.append(Task("antisym", h_antisym, {}, mods="kernels"))
     out.append(Task("spin", h_spin, {}, mods="kernels"))
+    out.append(Task("spin/n3", h_spin, dict(n=3), mods="kernels"))
     out.append(Task("spin_v2_raw", h_spin_v2_raw, {}, mods="kernels"))
     out.append(Task("linear", h_linear, {}, mods="kernels"))
     mk = ["srbf0*sarbf_tail", "sarbf_tail", "srbf_last*sarbf_head", "addrq_tail"]
